@@ -1180,7 +1180,7 @@ class Generator:
                 op["subset"] = self.rng.sample(sorted(m.cols), self.rng.randint(1, min(2, len(m.cols))))
             self._kn(op, ["split_out", "split_every", "shuffle_method"])
             return self.try_add(op, "open", "open", self.next_id, None)
-        s = self.pick(self.series())
+        s = self.pick(self.series(lambda m: list(m.cols.values())[0] != "float"))
         if not s:
             return None
         op = {"op": "unique", "src": s.id}
@@ -1188,7 +1188,9 @@ class Generator:
         return self.try_add(op, "open", "open", self.next_id, None)
 
     def g_value_counts(self):
-        s = self.pick(self.series())
+        # not on floats: values that are *computed* (means, stds) differ in their last bits between reduction trees,
+        # and value_counts / unique turn such noise into different row counts
+        s = self.pick(self.series(lambda m: list(m.cols.values())[0] != "float"))
         if not s:
             return None
         op = {"op": "value_counts", "src": s.id}
